@@ -5,7 +5,8 @@ from vt.symx import (fresh_bool, check, reach, note, choice, assume)
 from vt.harness import C01
 
 
-def _c10_e_case(shape, text, preemptions, max_step, use_cmd=False):
+def _c10_e_case(shape, text, preemptions, max_step, use_cmd=False,
+                early_resume=False):
     spec = C01.parse(text)
 
     def case():
@@ -40,13 +41,24 @@ def _c10_e_case(shape, text, preemptions, max_step, use_cmd=False):
             if not use_cmd:
                 p = choice('pause_at', list(range(0, max_step + 1)))
                 ops.append([p, pause])
+                if early_resume:
+                    # the resume arrives while messages sent before the
+                    # pause are still in flight
+                    q = choice('resume_at', list(range(p, max_step + 1)))
+                    ops.append([q, resume])
             # drain everything (the run goes quiet while paused) ...
             scenario.run_with_ops(ex, w, ops)
             # ... then resume and drain again
             resume(ex, w)
             scenario.run_with_ops(ex, w, [])
             reach('quiescent')
-            scenario.final_check(ex, w, wid, spec, sig, ignore_pause=True)
+            inf = scenario.final_check(ex, w, wid, spec, sig,
+                                       ignore_pause=True)
+            if not ex.taint:
+                for t in w.tasks(wid):
+                    n = len(w.actions(t['id']))
+                    check(n <= 1, 'action-dispatched-twice',
+                          dict(inf('action-twice'), task=t['name'], n=n))
     return case
 
 
@@ -70,7 +82,9 @@ def _c10_e_case(shape, text, preemptions, max_step, use_cmd=False):
                      'chain, conditional and the pause engine command in '
                      'front of a join; pause issued before any of the first '
                      '10 deliveries (symbolic position), all in-flight work '
-                     'is then delivered, then resume; outcomes / guards '
+                     'is then delivered, then resume (variant: the resume '
+                     'follows at any later point, with messages still in '
+                     'flight); outcomes / guards '
                      'symbolic; FIFO order',
             'thorough': 'pause position over the first 16 deliveries, <= 1 '
                         'out-of-order delivery'},
@@ -94,6 +108,11 @@ def c10_e(ctx):
                    if shape == 'fork_join' else None)
     yield Case('chain', _c10_e_case('chain', shapes.CHAIN, k, ms),
                needed=['paused', 'resumed-from-pause', 'quiescent'])
+    for shape in ('fork_join', 'error_routes'):
+        yield Case(shape + '/early-resume',
+                   _c10_e_case(shape, shapes.RUN_SHAPES[shape], 0,
+                               min(ms, 8), early_resume=True),
+                   needed=['paused', 'resumed-from-pause', 'quiescent'])
     yield Case('pause_cmd_join',
                _c10_e_case('pause_cmd_join', shapes.PAUSE_CMD_JOIN, k, ms,
                            use_cmd=True),
